@@ -148,32 +148,109 @@ Definition ext_reset (pm m : nsmap) : Prop :=
   forall p u, nm_get pm p = Some u ->
               nm_get m p = Some u \/ (p = None /\ nm_get m None = Some []).
 
-Lemma ctx_maps_step u0 c pm m :
-  ctx_maps c pm -> minv u0 pm -> NoDup (map fst m) -> ext_reset pm m ->
-  ctx_maps (nc_sets c (changed_entries pm m)) m.
+(* the sink's context never names the default prefix for a namespace that has a prefixed binding *)
+Definition ctx_pref (c : nctx) (m : nsmap) : Prop :=
+  forall p u, nm_get m (Some p) = Some u -> nc_get c u <> Some None.
+Lemma ctx_pref_nil : ctx_pref [] [].
+Proof. intros p u H. discriminate. Qed.
+
+(* what nc_sets computes: the last declaration of the namespace wins *)
+Definition last_decl (u : str) (acc : option (option str)) (ds : nsmap) : option (option str) :=
+  fold_left (fun acc d => if str_eqb (snd d) u then Some (fst d) else acc) ds acc.
+Lemma nc_get_sets ds : forall c u, nc_get (nc_sets c ds) u = last_decl u (nc_get c u) ds.
 Proof.
-  intros Hc Hpm Hnd Hext p u Hg Hu.
+  induction ds as [|d ds IH]; intros c u; [reflexivity|].
+  cbn [nc_sets fold_left]. fold (nc_sets (nc_set c (snd d) (fst d)) ds).
+  rewrite IH. unfold last_decl. cbn [fold_left].
+  assert (E : nc_get (nc_set c (snd d) (fst d)) u = if str_eqb (snd d) u then Some (fst d) else nc_get c u).
+  { destruct (str_eqb_spec (snd d) u) as [E|E].
+    - subst u. apply nc_get_set_same.
+    - apply nc_get_set_other. intros H. apply E. symmetry. exact H. }
+  rewrite E. reflexivity.
+Qed.
+
+Lemma nodup_app_disjoint {A} (l1 l2 : list A) x : NoDup (l1 ++ l2) -> In x l1 -> In x l2 -> False.
+Proof.
+  induction l1 as [|a l1 IH]; cbn; [tauto|]. intros Hnd [H1|H1] H2; inversion Hnd as [|? ? Hni Hnd']; subst.
+  - apply Hni. apply in_or_app. right. exact H2.
+  - exact (IH Hnd' H1 H2).
+Qed.
+Lemma last_decl_none u ds : forall acc,
+  last_decl u acc ds = Some None ->
+  (acc = Some None /\ forall d, In d ds -> snd d <> u)
+  \/ exists l1 l2, ds = l1 ++ (None, u) :: l2 /\ forall d, In d l2 -> snd d <> u.
+Proof.
+  induction ds as [|d ds IH]; intros acc H; cbn [last_decl fold_left] in H.
+  - left. split; [exact H|intros d []].
+  - fold (last_decl u (if str_eqb (snd d) u then Some (fst d) else acc) ds) in H.
+    destruct (IH _ H) as [[Ha Hn]|[l1 [l2 [Hs Hn]]]].
+    + destruct (str_eqb_spec (snd d) u) as [E|E].
+      * right. exists [], ds. split; [|exact Hn]. inversion Ha as [Hf]. destruct d as [p x]. cbn in *. subst. reflexivity.
+      * left. split; [exact Ha|]. intros d' [Hd|Hd]; [subst; exact E|exact (Hn d' Hd)].
+    + right. exists (d :: l1), l2. split; [rewrite Hs; reflexivity|exact Hn].
+Qed.
+
+Lemma changed_entries_nil m : changed_entries [] m = m.
+Proof.
+  unfold changed_entries.
+  set (f := fun e : option str * str => negb (ostr_eqb (nm_get [] (fst e)) (Some (snd e)))).
+  induction m as [|x m IH]; [reflexivity|].
+  change (filter f (x :: m)) with (if f x then x :: filter f m else filter f m).
+  assert (Hf : f x = true) by reflexivity. rewrite Hf, IH. reflexivity.
+Qed.
+
+Lemma ctx_step u0 c pm m :
+  ctx_maps c pm -> ctx_pref c pm -> minv u0 m -> ext_reset pm m ->
+  (forall u, u <> [] -> nm_get m None = Some u -> pm = [] \/ nm_get pm None = Some u) ->
+  ctx_maps (nc_sets c (changed_entries pm m)) m /\ ctx_pref (nc_sets c (changed_entries pm m)) m.
+Proof.
+  intros Hc Hcp Hm Hext Hnone.
+  pose proof (mi_uniq _ _ Hm) as Hnd.
   set (ch := changed_entries pm m).
-  destruct (existsb (fun d => str_eqb (snd d) u) ch) eqn:Ex.
-  - apply existsb_exists in Ex as [d [Hin He]]. apply str_eqb_eq in He.
-    destruct (nc_sets_touched ch c u (ex_intro _ d (conj Hin He))) as [p' [Hp' Hg']].
-    exists p'. split; [exact Hg'|].
-    unfold ch, changed_entries in Hp'. apply filter_In in Hp' as [Hp' _].
-    apply In_nm_get; assumption.
-  - assert (Hnone : forall d, In d ch -> snd d <> u).
-    { intros d Hd E. assert (existsb (fun d => str_eqb (snd d) u) ch = true); [|congruence].
-      apply existsb_exists. exists d. split; [exact Hd|apply str_eqb_eq, E]. }
-    rewrite nc_sets_untouched by exact Hnone.
-    (* (p,u) is not a changed entry: the parent had it *)
-    assert (Hpar : nm_get pm p = Some u).
-    { destruct (ostr_eqb (nm_get pm p) (Some u)) eqn:E; [apply ostr_eqb_eq in E; exact E|].
-      exfalso. apply (Hnone (p, u)); [|reflexivity].
-      unfold ch, changed_entries. apply filter_In. split; [apply nm_get_In, Hg|].
-      cbn [fst snd]. rewrite E. reflexivity. }
-    destruct (Hc p u Hpar Hu) as [p' [Hc' Hp']].
-    exists p'. split; [exact Hc'|].
-    destruct (Hext p' u Hp') as [H|[Hn Hr]]; [exact H|].
-    (* the parent's default namespace was u and has been reset: then u had no other prefix *)
-    subst p'. pose proof (mi_default_alone _ _ Hpm u p Hu Hp' Hpar) as ->.
-    rewrite Hr in Hg. inversion Hg; subst. contradiction.
+  assert (Hunch : forall p u, nm_get m p = Some u -> (forall d, In d ch -> snd d <> u) -> nm_get pm p = Some u).
+  { intros p u Hg Hn. destruct (ostr_eqb (nm_get pm p) (Some u)) eqn:E; [apply ostr_eqb_eq in E; exact E|].
+    exfalso. apply (Hn (p, u)); [|reflexivity].
+    unfold ch, changed_entries. apply filter_In. split; [apply nm_get_In, Hg|]. cbn [fst snd]. rewrite E. reflexivity. }
+  split.
+  - intros p u Hg Hu.
+    destruct (existsb (fun d => str_eqb (snd d) u) ch) eqn:Ex.
+    + apply existsb_exists in Ex as [d [Hin He]]. apply str_eqb_eq in He.
+      destruct (nc_sets_touched ch c u (ex_intro _ d (conj Hin He))) as [p' [Hp' Hg']].
+      exists p'. split; [exact Hg'|].
+      unfold ch, changed_entries in Hp'. apply filter_In in Hp' as [Hp' _]. apply In_nm_get; assumption.
+    + assert (Hn : forall d, In d ch -> snd d <> u).
+      { intros d Hd E. assert (existsb (fun d => str_eqb (snd d) u) ch = true); [|congruence].
+        apply existsb_exists. exists d. split; [exact Hd|apply str_eqb_eq, E]. }
+      rewrite nc_sets_untouched by exact Hn.
+      pose proof (Hunch p u Hg Hn) as Hpar.
+      destruct (Hc p u Hpar Hu) as [p' [Hc' Hp']]. exists p'. split; [exact Hc'|].
+      destruct (Hext p' u Hp') as [H|[Hp0 Hr]]; [exact H|]. subst p'.
+      (* the parent's default namespace u was reset here *)
+      destruct p as [q|].
+      * exfalso. exact (Hcp q u Hpar Hc').
+      * rewrite Hr in Hg. inversion Hg; subst. contradiction.
+  - intros p u Hg Hcn. rewrite nc_get_sets in Hcn.
+    assert (Hu : u <> []).
+    { pose proof (mi_legal _ _ Hm _ _ (nm_get_In _ _ _ Hg)) as Hl. cbn in Hl. destruct Hl as [_ [_ [Hl _]]].
+      intros ->. discriminate. }
+    destruct (last_decl_none u ch _ Hcn) as [[Ha Hn]|[l1 [l2 [Hs Hn]]]].
+    + exact (Hcp p u (Hunch _ _ Hg Hn) Ha).
+    + (* the default declaration of u is the last one for u *)
+      assert (Hin : In (None, u) ch) by (rewrite Hs; apply in_or_app; right; left; reflexivity).
+      unfold ch, changed_entries in Hin. apply filter_In in Hin as [Hin Hchg]. cbn [fst snd] in Hchg.
+      pose proof (In_nm_get _ _ _ Hnd Hin) as Hd.
+      destruct (Hnone u Hu Hd) as [Hroot|Hpd].
+      * subst pm. unfold ch in Hs. rewrite changed_entries_nil in Hs.
+        (* both entries are declared here; the prefixed one must come later *)
+        assert (Hpin : In (Some p, u) m) by apply nm_get_In, Hg.
+        rewrite Hs in Hpin. apply in_app_or in Hpin as [Hpin|[Hpin|Hpin]]; [|discriminate|exact (Hn _ Hpin eq_refl)].
+        apply in_split in Hpin as [a [b Hl1]].
+        pose proof (mi_default_first _ _ Hm u a p (b ++ (None, u) :: l2) Hu Hd) as Hf.
+        assert (Hm' : m = a ++ (Some p, u) :: (b ++ (None, u) :: l2)).
+        { rewrite Hs, Hl1, <- app_assoc. reflexivity. }
+        specialize (Hf Hm').
+        rewrite Hm' in Hnd. rewrite map_app in Hnd.
+        apply (nodup_app_disjoint _ _ None Hnd Hf).
+        cbn [map fst]. right. rewrite map_app. apply in_or_app. right. left. reflexivity.
+      * rewrite Hpd, ostr_eqb_refl in Hchg. discriminate.
 Qed.
